@@ -61,7 +61,8 @@ JudgeFrag(st, e) ==
       k2 == [ks EXCEPT !.frags = S, !.last = e.ts, !.first = (IF ks.frags = {} THEN e.ts ELSE ks.first)]
       benign == ~ks.tainted /\ Benign(S)
       consistent == /\ e.flags = 0 /\ e.fragoff = 0
-                    /\ e.length = 4 * e.ihl + e.plen /\ e.ihl = st.ihl
+                    /\ e.length = 4 * e.ihl + e.plen
+                    /\ e.ihl \in (IF st.ihl = 65 THEN {5, 6} ELSE {st.ihl})   \* 65: options in the offset-0 fragment only
   IN
   IF e.res = "same" THEN
        \* pass-through is for unfragmented packets only
